@@ -197,3 +197,52 @@ func harnessC06Replay() {
 	verif_assert(c06SameSet(gotB, gb), "C06/replayed-group-of-a-neighbour-origin-is-a-different-set")
 	verif_assert(c06SameSet(gotC, gc), "C06/replayed-group-of-a-remote-origin-is-a-different-set")
 }
+
+// local networks of every address form: IPv4, IPv6, and an IPv4-mapped IPv6 prefix
+// (16-byte address, 128-bit mask); what the neighbour decodes converts back (real
+// protocolRouteToIPNet) to a network with the same mask length and width and the same address
+func harnessC06Families() {
+	f, snd, rm := fNew(0, []identity.AgentID{fID(0)})
+	x := verif_nondet_u8()
+	nets := []*net.IPNet{
+		{IP: net.IP{10, x, 0, 0}, Mask: net.CIDRMask(16, 32)},
+		{IP: net.IP{0x20, 0x01, 0x0d, 0xb8, x, 0, 0, 0, 0, 0, 0, 0, 0, 0, 0, 0}, Mask: net.CIDRMask(40, 128)},
+		{IP: net.IP{0, 0, 0, 0, 0, 0, 0, 0, 0, 0, 0xff, 0xff, 10, 0, 0, 0}, Mask: net.CIDRMask(104, 128)},
+	}
+	for i, n := range nets {
+		rm.AddLocalRoute(n, uint16(i))
+	}
+	f.AnnounceLocalRoutes()
+	verif_reach("C06/families")
+	found := make([]int, len(nets))
+	for _, s := range snd.log {
+		if s.f.Type != protocol.FrameRouteAdvertise {
+			continue
+		}
+		adv, err := protocol.DecodeRouteAdvertise(s.f.Payload)
+		verif_assert(err == nil, "C06/announcement-does-not-decode-at-the-neighbour")
+		if err != nil {
+			return
+		}
+		for _, r := range adv.Routes {
+			if r.AddressFamily != protocol.AddrFamilyIPv4 && r.AddressFamily != protocol.AddrFamilyIPv6 {
+				continue
+			}
+			got := protocolRouteToIPNet(r)
+			verif_assert(got != nil && got.Mask != nil, "C06/neighbour-cannot-rebuild-the-announced-network")
+			if got == nil || got.Mask == nil {
+				return
+			}
+			go1, gb := got.Mask.Size()
+			for i, n := range nets {
+				o1, ob := n.Mask.Size()
+				if go1 == o1 && gb == ob && len(got.IP) == len(n.IP) && got.IP.Equal(n.IP) {
+					found[i]++
+				}
+			}
+		}
+	}
+	for i := range nets {
+		verif_assert(found[i] == 1, "C06/announced-network-not-learned-as-announced")
+	}
+}
